@@ -159,6 +159,13 @@ class Gen:
     vs = self.vars_of_type(bound, t)
     if t == 'int':
       x = r.random()
+      if depth > 0 and allow_fcall and self.f.get('fcall_boost') and r.random() < self.f['fcall_boost'] and self.p('func'):
+        e = self.gen_fcall('int', bound, depth)
+        if e is not None:
+          if r.random() < 0.4:
+            self.mark('fcall_repeat')
+            return ('bin', r.choice(['+', '-', '*']), e, e)
+          return e
       if depth <= 0 or x < 0.35:
         if vs and r.random() < 0.8:
           return ir.V(r.choice(vs))
@@ -189,7 +196,7 @@ class Gen:
         self.mark('if')
         return ('if', self.gen_cond(bound, depth - 1), self.gen_expr('int', bound, depth - 1, allow_fcall),
                 self.gen_expr('int', bound, depth - 1, allow_fcall))
-      if x < 0.95 and allow_fcall and self.p('func'):
+      if (x < 0.95 or self.f.get('fcall_boost')) and allow_fcall and self.p('func'):
         e = self.gen_fcall('int', bound, depth)
         if e is not None:
           if r.random() < 0.3:
@@ -349,7 +356,7 @@ class Gen:
     r = self.rng
     ints = self.vars_of_type(bound, 'int')
     strs = self.vars_of_type(bound, 'str')
-    if (ints or strs) and self.p('lists') and r.random() < 0.12:
+    if (ints or strs) and self.p('lists') and r.random() < self.f.get('in_filter_rate', 0.12):
       # `in` with an already bound left side is a filter (a repeated element repeats the solution)
       t = 'int' if (ints and (not strs or r.random() < 0.7)) else 'str'
       self.mark('in_filter')
@@ -480,7 +487,37 @@ class Gen:
       lits.append(self.gen_negation(bound))
     if self.p('combine'):
       lits.append(self.gen_combine_assign(bound))
+    lits = self.break_unification_cycles(lits)
     return lits, bound
+
+  def break_unification_cycles(self, lits):
+    """`a == b` between two variables unifies them; `z in [.., y, ..], y == z` is then `z in [.., z, ..]`, which Logica
+    (rightly) reports as a circular dependency. Such an equality is replaced by a trivial literal."""
+    eqs = [i for i, l in enumerate(lits) if l[0] == 'cmp' and l[1] == '==' and l[2][0] == 'var' and l[3][0] == 'var']
+    ins = [l for l in lits if l[0] == 'in' and l[1][0] == 'var']
+    if not eqs or not ins:
+      return lits
+    for i in eqs:
+      parent = {}
+
+      def find(x):
+        while parent.get(x, x) != x:
+          x = parent[x]
+        return x
+      for j in eqs:
+        a, b = find(lits[j][2][1]), find(lits[j][3][1])
+        if a != b:
+          parent[a] = b
+      bad = False
+      for l in ins:
+        members = ir.expr_vars(l[2])
+        if any(find(m) == find(l[1][1]) for m in members):
+          bad = True
+      if bad:
+        lits = list(lits)
+        lits[i] = ('cmp', '==', ir.N(1), ir.N(1))
+        return self.break_unification_cycles(lits)
+    return lits
 
   def gen_or(self, bound):
     """Disjunction nested under the conjunction; both alternatives bind the same new variable or none."""
@@ -811,7 +848,7 @@ class Gen:
     r = self.rng
     for _ in range(r.randint(*self.f['n_ext'])):
       self.gen_ext()
-    if self.p('func') and r.random() < 0.5:
+    if self.p('func') and (r.random() < 0.5 or self.f.get('fcall_boost')):
       self.gen_fun_facts()
     if self.p('inj'):
       self.gen_injectible()
